@@ -14,6 +14,7 @@ on anything else ("untranslatable construct at file:line"): a failure is a broke
   Gen/SupImp.lean     … of Subgraph.mark_nodes, SupervisedOPF._find_prototypes/fit/predict (tools/translate_fn.py)
   Gen/SemiImp.lean    … of SemiSupervisedOPF.fit
   Gen/ClusImp.lean    … of KNNSupervisedOPF._clustering and UnsupervisedOPF._clustering
+  Gen/ArcsImp.lean    … of KNNSubgraph.create_arcs and Subgraph.destroy_arcs
 """
 import ast
 import decimal
@@ -782,6 +783,9 @@ def main():
     err = translate_fn.translate_cluster(REPO, GEN, consts, write)
     if err:
         notes.append(f"TRANSLATOR-IMP(cluster): {err}")
+    err = translate_fn.translate_arcs(REPO, GEN, consts, write)
+    if err:
+        notes.append(f"TRANSLATOR-IMP(arcs): {err}")
     for n in notes:
         print(n)
     return 0
